@@ -3,6 +3,8 @@
 id=$1; shift
 cd /repo && git diff --quiet || { echo "repo dirty"; exit 3; }
 git -C /repo apply /verif/seeded/$id/patch.diff || { echo "patch does not apply"; exit 3; }
+# evidence files must only ever come from runs on the unchanged tree: keep them aside
+EVS=$(mktemp -d /root/evsave.XXXX); cp -r /verif/evidence/. $EVS/
 for c in "$@"; do
   start=$(date +%s)
   out=$(cd /verif && timeout 1800 ./run.sh $c ${TIER:-quick} 2>&1)
@@ -12,3 +14,4 @@ for c in "$@"; do
   echo "$out" | grep -m2 -A2 "violation:" | cut -c1-400
 done
 git -C /repo checkout -- .
+cp -r $EVS/. /verif/evidence/; rm -rf $EVS
